@@ -274,11 +274,14 @@ public:
     const XalanDOMString*
     getNamespaceForPrefix(const XalanDOMString&     thePrefix) const;
 
+    /**
+     * Get a prefix that is bound to the namespace URI in the current
+     * context.  A prefix that was declared for the URI in an outer
+     * context, but has been re-declared for another URI since, is not
+     * returned.
+     */
     const XalanDOMString*
-    getPrefixForNamespace(const XalanDOMString&     theURI) const
-    {
-        return findEntry(theURI, &value_type::getPrefixForNamespace);
-    }
+    getPrefixForNamespace(const XalanDOMString&     theURI) const;
 
     /**
      * See if the prefix has been mapped to a namespace in the current
